@@ -73,9 +73,12 @@ pub struct Ctx {
     pub images_verified: u64,
     pub max_images_per_step: usize,
     pub max_images_per_run: u64,
+    pub image_cost: u64,
+    pub max_image_cost_per_run: u64,
     pub stop: bool,
     pub fault_armed: bool,
     pub kinds: Vec<String>,
+    pub seen_sigs: std::collections::HashSet<u64>,
 }
 
 fn prop_for_step(op: &Op) -> &'static str {
@@ -169,6 +172,13 @@ impl Ctx {
         } else {
             (property, verdict)
         };
+        // one violation per distinct signature per run: repeats add nothing and would exhaust the
+        // per-run cap before the history has been explored
+        let key = simcore::rng::fnv1a(format!("{}|{}|{:?}", property, verdict, m).as_bytes());
+        if !self.seen_sigs.insert(key) {
+            self.out.count("violations_repeated_in_run", 1);
+            return;
+        }
         let case = self.case_json(crash);
         self.out.violations.push(Violation {
             property: property.to_string(),
@@ -471,6 +481,14 @@ fn verify_images(
         if i % stepby != 0 && !is_boundary && ctx.crash.as_ref().and_then(|c| c.point.as_ref()).is_none() {
             continue;
         }
+        // deterministic cost model (replayable, unlike a wall-clock cut): one unit per image plus one
+        // per 64 KiB it holds; boundary images get extra head-room
+        let cost = 1 + img.files.iter().map(|(_, b)| b.len() as u64).sum::<u64>() / 65_536;
+        if ctx.image_cost + cost > ctx.max_image_cost_per_run + if is_boundary { ctx.max_image_cost_per_run / 2 } else { 0 } {
+            ctx.out.count("images_skipped_budget", 1);
+            continue;
+        }
+        ctx.image_cost += cost;
         if ctx.images_verified >= ctx.max_images_per_run + if is_boundary { 300 } else { 0 } {
             ctx.out.count("images_skipped_budget", 1);
             continue;
@@ -531,7 +549,10 @@ fn verify_images(
             Ok((obs, _)) => {
                 // both recovery paths must produce the same state (sampled: every 3rd image)
                 let pinned_replay = ctx.crash.as_ref().and_then(|c| c.point.as_ref()).is_some();
-                if pinned_replay || img.hash % 3 == 0 {
+                // only where automatic recovery produced a legitimate state: when it did not, that is
+                // reported by itself below and a second opinion on garbage says nothing
+                let acceptable = exp_accept.iter().any(|e| diff_obs(e, &obs, &plan).is_none()) || diff_obs(&exp_acked, &obs, &plan).is_none();
+                if (pinned_replay || img.hash % 3 == 0) && acceptable {
                     ctx.out.count("recovery_paths_compared", 1);
                     match observe_via_streaming_recovery(ctx, img, &plan) {
                         Ok(None) => ctx.out.count("recovery_paths_no_wal", 1),
@@ -560,7 +581,7 @@ fn verify_images(
                         }
                     }
                 }
-                if exp_accept.iter().any(|e| diff_obs(e, &obs, &plan).is_none()) || diff_obs(&exp_acked, &obs, &plan).is_none() {
+                if acceptable {
                     continue;
                 }
                 // not acceptable. C01: is anything acknowledged missing?
@@ -670,7 +691,7 @@ fn verify_images(
                 );
             }
         }
-        if ctx.out.violations.len() > 24 {
+        if ctx.out.violations.len() > 60 {
             ctx.stop = true;
             return;
         }
@@ -811,7 +832,18 @@ pub fn run_history(ctx: &mut Ctx, src: &mut Source, seed: u64) -> Option<History
             sd.ordinal
         });
 
+        ctx.out.count(&format!("op/{}", op.kind()), 1);
+        let wal_bytes_before = simdisk::with(|sd| sd.counters.get("bytes/wal").copied().unwrap_or(0));
         let actual = live.exec(&step);
+        if matches!(op, Op::Commit) {
+            let wrote = simdisk::with(|sd| sd.counters.get("bytes/wal").copied().unwrap_or(0)) - wal_bytes_before;
+            if wrote > 16 * 16_416 {
+                ctx.out.count("probe/commit_more_than_16_pages", 1);
+            }
+            if wrote > 0 {
+                ctx.out.count("probe/commit_logged", 1);
+            }
+        }
         simdisk::boundary_point();
         let fault_fired = if ctx.fault_armed {
             let f = simdisk::with(|sd| {
